@@ -133,6 +133,7 @@ def run(chk):
     rule_names(chk)
     rule_entry(chk)
     rule_used(chk)
+    rule_thread_group(chk)
 
 
 def rule_annotations(chk):
@@ -336,3 +337,67 @@ def rule_used(chk):
                 vals.append(F.lit(fl["is_used"]))
         ok = bool(vals) and all(v == ("bool", True) for v in vals)
         chk.ob("C05.used/hlsl", ok, "HLSL never reports a binding unused" if ok else "HLSL metadata can report a binding as unused without any usage analysis (%s)" % vals, where(ab))
+
+
+def rule_thread_group(chk):
+    """Reported thread-group size = the entry point's [numthreads]: add_stage scans the function's attribute list for
+    NumThreads; the scan must look at every attribute (no break / early exit on another attribute kind - the exporters
+    print numthreads wherever it stands in the list) and store Some((x, y, z)) built from the three evaluated arguments
+    in order."""
+    f = chk.facts
+    fn = chk.anchor("C05.anchor/add_stage", f.fn("add_stage", "rssl_typer"), "typer add_stage")
+    if not fn:
+        return
+    loops = []
+    for (p, it, body, node) in F.for_loops(fn["thir"]):
+        if body is None:
+            continue
+        asg = [a for a in F.exprs(body, "Assign") if (F.leftmost_var(a["l"]) or {}).get("name") == "thread_group_size" or
+               any(short(x.get("adt", "")) == "Option" and x.get("variant") == "Some" and any(y.get("k") == "Tuple" and len(y.get("elems", [])) == 3 for y in F.walk(x)) for x in F.exprs(a["r"], "Adt"))]
+        if asg and any(p2.get("k") == "Variant" and p2.get("variant") == "NumThreads" for p2 in F.walk(body) if isinstance(p2, dict)):
+            loops.append((p, it, body, node, asg))
+    if not chk.anchor("C05.anchor/numthreads-scan", len(loops) == 1 and loops, "the loop over function attributes that records NumThreads", where(fn)):
+        return
+    p, it, body, node, asg = loops[0]
+    whole = F.strip(it)
+    src_ok = any(x.get("k") == "Field" and x.get("name") == "attributes" for x in F.walk(it)) and \
+        not any(short(c.get("fn") or "") in ("skip", "take", "rev", "filter", "take_while", "skip_while", "step_by") for c in F.exprs(it, "Call"))
+    chk.ob("C05.threads/scans-all-attributes", src_ok, "iterates the function's whole attribute list" if src_ok else
+           "the numthreads scan no longer iterates the whole attribute list of the entry point", where(fn, node))
+    inner_loops = [x for l in F.for_loops(body) if l[2] is not None for x in F.walk(l[3])]
+    breaks = [x for x in F.walk(body) if x.get("k") == "Break" and not any(x is y for y in inner_loops)]
+    rets_ok = True
+    for r in F.walk(body):
+        if r.get("k") == "Return" and "e" in r:
+            a = F.adt_ctor(r["e"])
+            fr = any(short(c.get("fn") or "") == "from_residual" for c in F.exprs(r, "Call"))
+            if not fr and not (a and a[1] == "Err"):
+                rets_ok = False
+    ok = not breaks and rets_ok
+    chk.ob("C05.threads/no-early-exit", ok, "the scan only ends early with an error" if ok else
+           "the numthreads scan leaves the loop at an attribute that is not numthreads (%s): when another attribute precedes [numthreads] the stage reports no thread-group size while the emitted entry point declares one"
+           % ("break" if breaks else "return"), where(fn, breaks[0] if breaks else node))
+    # Some((x, y, z)) in argument order
+    order_ok = False
+    for a in asg:
+        for tup in (y for y in F.walk(a["r"]) if y.get("k") == "Tuple" and len(y.get("elems", [])) == 3):
+            vs = [F.leftmost_var(e) for e in tup["elems"]]
+            if not all(vs):
+                continue
+            fields = {}
+            for q in F.walk(body):
+                if isinstance(q, dict) and q.get("k") == "Variant" and q.get("variant") == "NumThreads":
+                    for i_, n_, path_ in F.pat_binds(q):
+                        fields[i_] = path_[-1] if path_ else None
+            idx = []
+            for v in vs:
+                src = None
+                if v["id"] in fields:
+                    src = fields[v["id"]]
+                for s in F.walk(body):
+                    if s.get("k") == "LetStmt" and s.get("pat", {}).get("k") == "Bind" and s["pat"]["id"] == v["id"] and "init" in s:
+                        hit = [fields[w["id"]] for w in F.exprs(s["init"], "Var") if w["id"] in fields]
+                        src = hit[0] if len(hit) == 1 else None
+                idx.append(src)
+            order_ok = [str(i) for i in idx] == ["0", "1", "2"]
+    chk.ob("C05.threads/xyz-order", order_ok, "thread_group_size = Some((x, y, z))" if order_ok else "the recorded thread-group size no longer lists the three numthreads arguments in order", where(fn))
